@@ -406,6 +406,15 @@ def _run(ctx, bins, scratch, quick):
         ctx, bins, scratch, "Map_quick.cfg" if quick else "Map_thorough.cfg", 900 if quick else 2400, results)))
     if not quick and os.environ.get("C16_NO_MIRI", "") == "":
         threads.append(threading.Thread(target=_run_miri, args=(ctx, scratch, results)))
+    if not quick:
+        # action coverage of the (non-exporting) quick configuration: vacuity check of the spec
+        def _cov():
+            try:
+                results["cov"] = core.run_tlc("DatafileCases.tla", "MC_quick.cfg", cwd=CWD, workers=2, timeout=1800,
+                                              coverage=True, env=_jenv(ctx))
+            except Exception as e:  # noqa: BLE001
+                results["cov"] = e
+        threads.append(threading.Thread(target=_cov))
     for t in threads:
         t.start()
         time.sleep(0.05)      # core's TLC metadir names have millisecond resolution
@@ -473,6 +482,14 @@ def _run(ctx, bins, scratch, quick):
             raise v
     if "miri" in results:
         _judge_miri(ctx, results["miri"])
+    if "cov" in results:
+        cres = results["cov"]
+        ctx.add_states(cres, "DatafileMC MC_quick.cfg with -coverage 1 (laws only)")
+        if not cres.ok:
+            ctx.report("spec-law:%s" % (cres.violated or "error"), "TLC reports %s in DatafileMC (MC_quick.cfg)" % (
+                cres.violated or (cres.error or "")[:300]), {"kind": "spec", "tail": cres.out[-3000:]})
+        if cres.zero_actions:
+            raise core.ToolError("vacuity: actions never taken in MC_quick.cfg: %s" % cres.zero_actions)
 
     # ---- (A)
     total_cases = 0
